@@ -12,6 +12,8 @@ type Gen struct {
 	R *rand.Rand
 	// Rates (per mille) of inputs that trigger recorded known findings.
 	IPv6Rate, UserSemiRate, CommaUserRate int
+	// MixedCaseHosts lets Hostname() produce upper-case letters.
+	MixedCaseHosts bool
 }
 
 // NewGen returns a generator seeded with seed.
@@ -95,7 +97,18 @@ func (g *Gen) Hostname() string {
 	}
 	// the top label must start with a letter
 	parts[n-1] = g.chars("abcdefghijklmnopqrstuvwxyz", 1, 1) + parts[n-1]
-	return strings.Join(parts, ".")
+	h := strings.Join(parts, ".")
+	if g.MixedCaseHosts && g.chance(250) {
+		// host names are case-insensitive to resolvers but their bytes are the sender's
+		b := []byte(h)
+		for i, c := range b {
+			if c >= 'a' && c <= 'z' && g.R.Intn(3) == 0 {
+				b[i] = c - 32
+			}
+		}
+		h = string(b)
+	}
+	return h
 }
 
 // Host returns an IPv4 literal or a hostname.
